@@ -135,7 +135,19 @@ func (d *Describer) val(v ssa.Value, depth int) string {
 			}
 			return d.val(v, depth+1)
 		}
-		return d.val(x.X, depth) + "[" + s(x.Low) + ":" + s(x.High) + "]"
+		lo, hi := x.Low, x.High
+		// the whole of an array (`arr[:]`, `arr[0:len]`, `make([]T, N)` with constant N) is "[:]"
+		if c, ok := lo.(*ssa.Const); ok && c.Value != nil && c.Value.Kind() == constant.Int && c.Value.String() == "0" {
+			lo = nil
+		}
+		if pt, ok := x.X.Type().Underlying().(*types.Pointer); ok && hi != nil {
+			if at, ok := pt.Elem().Underlying().(*types.Array); ok {
+				if c, ok := hi.(*ssa.Const); ok && c.Value != nil && c.Value.Kind() == constant.Int && c.Value.String() == fmt.Sprint(at.Len()) {
+					hi = nil
+				}
+			}
+		}
+		return d.val(x.X, depth) + "[" + s(lo) + ":" + s(hi) + "]"
 	case *ssa.UnOp:
 		switch x.Op {
 		case token.MUL:
